@@ -246,9 +246,15 @@ def gen_scenario(rng, si, kind, root, thorough=False):
         for mt in metas:
             latest[mt['plate']] = max(latest.get(mt['plate'], 0), mt['mjd'])
         pl = []
-        for mt in metas:
-            pl.append({'plate': mt['plate'], 'mjd': mt['mjd'], 'run2d': run2d, 'run1d': run1d, 'n_total': mt['nfib']})
-            pl.append({'plate': mt['plate'], 'mjd': mt['mjd'], 'run2d': 'other', 'run1d': run1d, 'n_total': mt['nfib'] + 1})
+        for k, mt in enumerate(metas):
+            # rows of other reductions of the same plate-MJD carry other counts; they come first for the first file and in
+            # random order for the rest, so that a lookup ignoring RUN2D or RUN1D picks a wrong N_TOTAL
+            rows = [{'plate': mt['plate'], 'mjd': mt['mjd'], 'run2d': 'other', 'run1d': run1d, 'n_total': mt['nfib'] + 1},
+                    {'plate': mt['plate'], 'mjd': mt['mjd'], 'run2d': run2d, 'run1d': 'x1d', 'n_total': max(mt['nfib'] - 1, 1)},
+                    {'plate': mt['plate'], 'mjd': mt['mjd'], 'run2d': run2d, 'run1d': run1d, 'n_total': mt['nfib']}]
+            if k > 0:
+                rng.shuffle(rows)
+            pl += rows
         trees[0]['platelist'] = pl
         trees[0]['platelist_dir'] = trees[0]['top']
     sc = {'si': si, 'kind': kind, 'run2d': run2d, 'run1d': run1d, 'trees': trees, 'metas': metas, 'calls': [],
